@@ -155,4 +155,26 @@ CLAIMS['C13'] = dict(
     note=('relative to: clang-14 lowering, STIR, the snprintf model (writes at most size bytes, returns the untruncated length >= 1); the '
           'digits produced are libc\'s - not analysed, which is why the level is not "proof" of the value equation'),
     technique='static analysis: abstract interpretation around the libc call with the printed length symbolic; conversion-string reconstruction per flag combination')
+CLAIMS['C14'] = dict(
+    level='proof',
+    text=('The four constant tables are compared entry by entry with RFC 4648 (alphabets; decode tables are their inverses, hex also A-F, '
+          'everything else incl. \'=\' is -1). Bit provenance of every table index computed by the encoders (hex nibbles; base64 full group '
+          'and both tail forms with their \'=\' count) and of every byte rebuilt by the decoders from the table values is compared bit for bit '
+          'with the RFC layout, per loop iteration (so for any length); a byte that depends on a table value of another group is flagged. '
+          'Allocation terms (size*2, ((size+2)/3)*4) and the sharing of one decoder core by both decoder forms complete decode(encode(x)) == x.'),
+    note=('relative to: clang-14 lowering, STIR + bit-provenance evaluator, the transcribed RFC alphabets; a codec rewritten without lookup '
+          'tables or not of the group-per-iteration form is reported undecided, not wrong; the identity 4*floor(n/3)+4*[n%3!=0] == 4*ceil(n/3) is stated'),
+    technique='static analysis: constant-table comparison + abstract interpretation with a bit-provenance domain per loop iteration')
+CLAIMS['C15'] = dict(
+    level='other',
+    text=('Both decoder cores are interpreted over a symbolic string and a caller buffer whose claimed size ranges over the whole type: every '
+          'table value is known non-negative where it contributes to a byte; oracle classes of RFC 4648 (7 hex / 9 base64 byte ranges x every '
+          'position of a group) are accepted / rejected exactly; success paths have passed the length test; with a null output nothing is '
+          'stored and the implied length is returned; stores are contiguous from the output cursor and inside the buffer, reads inside the '
+          'string (affine cursor relations inferred and verified, facts combined by elimination). For hex this is complete. For base64 the '
+          'placement of the tail group (that it is the last four characters) needs a divisibility argument outside the domains: its accesses '
+          'are reported undecided - hence level "other", not proof.'),
+    note=('relative to: clang-14 lowering, STIR, C14 R14.1 for what the tables accept; base64 tail bounds undecided (stated in DESIGN.md and '
+          'in the evidence as `undecided`)'),
+    technique='static analysis: abstract interpretation with oracle byte classes, sign-test dominance, inferred affine loop invariants, witness search')
 NOT_APPLICABLE = {}
